@@ -137,3 +137,20 @@ fn c17_epilogue_both() { epilogue_case(&[RecordType::Stdout, RecordType::Stderr]
 #[kani::proof]
 #[kani::unwind(18)]
 fn c17_epilogue_one() { epilogue_case(&[RecordType::Stderr]); }
+
+// ------------------------------------------------------------------------------------------------ model of make_request_epilogue for the close() harnesses
+// The bytes of the epilogue are decided by c17_epilogue_* / c17_exit_status.  The close() harnesses only need a
+// LENGTH and that none of its bytes is a reply marker: the model returns that many
+// 0x01 bytes from an inline buffer (no loops, no growth) and records its arguments.
+pub(crate) static mut GE_ARGS: (u16, u8, usize, usize) = (0, 0, 0, 0);     // (request id, protocol status, number of streams, calls)
+pub(crate) fn epilogue_model(request_id: u16, status: ExitStatus, streams: &[RecordType]) -> SmallVec<[u8; EPILOGUE_LEN]> {
+    let ps = match status { ExitStatus::Complete(_) => 0u8, ExitStatus::Overloaded => 2, ExitStatus::UnknownRole => 3 };
+    unsafe { GE_ARGS = (request_id, ps, streams.len(), GE_ARGS.3 + 1); }
+    // the close() harnesses that use this model close a writeable Responder: both output streams.  The length is a
+    // literal so that the SmallVec's capacity field stays a constant for the symbolic execution
+    assert!(streams.len() == 2, "C07: a writeable Responder must end both of its output streams");
+    SmallVec::from_buf_and_len([1u8; EPILOGUE_LEN], EPI_MODEL_LEN)
+}
+/// Length of the model epilogue.  Deliberately shorter than the real one (32): code that appends to the epilogue
+/// buffer (seeded change C07-a) then stays within the inline capacity instead of running into the `nogrow` cut.
+pub(crate) const EPI_MODEL_LEN: usize = 8;
